@@ -9,6 +9,7 @@ Sinks     construction / assignment of std::string or std::string_view from the 
 Guards    if (p), if (!p) return/throw, p ? .. : .., p == nullptr ? .. : .., p != nullptr && ..
 """
 from ..facts import walk, short
+from ..front import AnalysisBroken
 from ..callgraph import fkey_of_fn
 
 SOURCES = {"getAttribute", "xmlTextReaderGetAttribute", "xmlTextReaderValue", "xmlTextReaderConstValue"}
